@@ -366,7 +366,8 @@ def rule_force_is_constant(ctx, crate, rule="R-FORCE-IS-CONSTANT"):
             for d in list(sls[0].defs):
                 if d.get("kind") == "assign" and d["rv"]["k"] == "use" and d["rv"]["op"].get("k") == "const" and isinstance(d["rv"]["op"].get("v"), bool):
                     for sb, t in f.switches():
-                        if any(f.edge_dominates((sb, x), d["bb"]) for x in f.succ(sb)) and not f.dominates(d["bb"], c.bb):
+                        if any(f.edge_dominates((sb, x), d["bb"]) for x in f.succ(sb)) and not f.dominates(d["bb"], c.bb) and \
+                                not all(d["bb"] in f.reach([y]) for y in f.succ(sb)):
                             sls.append(f.slice_switch(sb))
             dep = sorted({"%s.%s" % (a.rsplit("::", 1)[-1], n_) for sl in sls for a, n_ in sl.fields() if a in OWN and (a, n_) not in allowed} |
                          {k.path for sl in sls for k in sl.calls if k.path.startswith(("state::ProgressState::", "state::BarState::", "multi::MultiState::"))
